@@ -125,8 +125,10 @@ static char *unrank_list(char *o, int d, int n, uint64_t idx) {
 /* ------------------------------------------------------------------ stimulus: instrumented rules */
 static const char *const LEAFNAME[MAXLEAF] = {"rule0", "rule1", "rule2", "rule3", "rule4", "rule5", "rule6", "rule7"};
 static const char *const POLNAME[MAXPOL] = {"P0", "P1", "P2", "P3"};
-static const int LEAFERR[MAXLEAF] = {KSI_INVALID_ARGUMENT, KSI_OUT_OF_MEMORY, KSI_IO_ERROR, KSI_NETWORK_ERROR,
-                                     KSI_INVALID_FORMAT, KSI_CRYPTO_FAILURE, KSI_HMAC_MISMATCH, KSI_UNKNOWN_ERROR};
+/* any status other than KSI_OK is an error: the ordinary codes, the small codes below 0x100 (KSI_INVALID_VERIFICATION_INPUT = 5 is what
+ * several SDK rules return), 0xff, and a negative value a user rule may return */
+static const int LEAFERR[MAXLEAF] = {KSI_INVALID_VERIFICATION_INPUT, KSI_OUT_OF_MEMORY, -3, KSI_NETWORK_ERROR,
+                                     1, KSI_CRYPTO_FAILURE, 0xff, KSI_UNKNOWN_ERROR};
 
 /* the outcome plan: choice taken at the k-th rule invocation of one execution (0 beyond the prefix) */
 static int g_plan[MAXTRACE], g_plan_len;
